@@ -1,7 +1,7 @@
 (* C08: invalidation by answers / failed sends, re-resolution, and the bounded-recovery step, stated on the
    operations of Model/ClientRoute.v. *)
 From AV Require Import Base.Util Model.ClientMeta Model.ClientRoute Proofs.ClientMetaDict Proofs.ClientMetaFacts
-  Proofs.ClientRouteWF.
+  Proofs.ClientRouteWF Proofs.ClientRouteFacts.
 From Coq Require Import Lia.
 
 Lemma handle_responses_out : forall rs st group fail acc st' out,
@@ -51,7 +51,7 @@ Proof.
     destruct hr as [out|e|]; inversion H; subst r st' res.
     + apply handle_responses_out in Eh. simpl in Eh. subst out. exact Hres.
     + destruct Hres as [Hf [x [Hin [He [Hne [Ht Hg]]]]]]. split; [exact Hf|]. split; [exact Hne|].
-      exists rs, x. rewrite Eres. repeat split; assumption.
+      exists rs, x. rewrite Eres. split; [reflexivity|]. split; [exact Hin|]. split; [exact He|]. split; [exact Ht|exact Hg].
     + exact Hres.
   - inversion H; subst r st' res.
     (* SFailed is only produced with the state reset_all *)
@@ -140,4 +140,57 @@ Proof.
   intros st n st2 a c x H Hc Hx. apply request_on_facts in H.
   destruct H as [_ [_ [_ [_ [_ [_ [_ [_ [c1 [_ [_ Hm]]]]]]]]]]]. rewrite Hc in Hm. destruct Hm as [_ Ha].
   rewrite Hx in Ha. exact Ha.
+Qed.
+
+(* ---- _send_request_to_coordinator (client.py _send_request_to_coordinator) ----------------------- *)
+(* a coordinator error (14, 15, 16) in the answer clears the cached coordinator of the group, a NotLeader /
+   UnknownTopic answer clears the answer's topic *)
+Lemma send_coord_invalidates : forall st g p loads o r st' e,
+  WF st -> send_coord st g p loads o = (r, st', PRaise e) ->
+  e <> 0 /\ (is_group_err e = true -> zget g (s_g2c st') = None) /\
+  (is_topic_err e = true -> exists x, a_res r = SOk [x] /\ r_err x = e /\ cleared (r_topic x) st').
+Proof.
+  intros st g p loads o r st' e Hwf H. unfold send_coord in H.
+  destruct (resolve_coord st g loads) as [[[st1 loads1] evs] [n|e0]] eqn:Er; [|inversion H].
+  pose proof (resolve_coord_WF _ _ _ _ _ _ _ Hwf Er) as W1.
+  destruct (s_closed st1); [inversion H|].
+  destruct (request_on st1 n) as [[st2 a]|] eqn:Eq; [|inversion H].
+  pose proof (request_on_WF _ _ _ _ W1 Eq) as W2.
+  destruct o as [|[|r0 rs]]; try (inversion H; fail).
+  destruct (handle_responses st2 (Some g) true [r0] []) as [st3 hr] eqn:Eh.
+  destruct (handle_responses_facts _ _ _ _ _ _ _ W2 Eh) as [_ [_ [_ [_ [_ [_ Hres]]]]]].
+  destruct hr as [out|e1|]; inversion H; subst.
+  destruct Hres as [_ [x [Hin [He [Hne [Ht Hg]]]]]]. destruct Hin as [<-|[]].
+  split; [exact Hne|]. split; [intro Hge; apply Hg; [exact Hge|reflexivity]|].
+  intro Hte. exists r0. split; [reflexivity|]. split; [exact He|]. apply Ht. exact Hte.
+Qed.
+
+(* DOCUMENTED DEVIATION from "a failed send invalidates the cached routing": when the request to the
+   coordinator fails (time-out, connection never up), _send_request_to_coordinator lets the failure propagate
+   and the cached coordinator - the very node the failed request was sent to - stays cached. *)
+Lemma send_coord_failed_keeps : forall st g p loads r st' res q,
+  send_coord st g p loads RFail = (r, st', res) -> In q (a_reqs r) ->
+  res = PErr ETimedOut /\ exists a, zget g (s_g2c st') = Some (rq_node q, a).
+Proof.
+  intros st g p loads r st' res q H Hq. unfold send_coord in H.
+  destruct (resolve_coord st g loads) as [[[st1 loads1] evs] [n|e0]] eqn:Er; [|inversion H; subst; destruct Hq].
+  destruct (ClientRouteFacts.resolve_coord_ok _ _ _ _ _ _ _ Er) as [a0 Ha0].
+  destruct (s_closed st1); [inversion H; subst; destruct Hq|].
+  destruct (request_on st1 n) as [[st2 a]|] eqn:Eq; [|inversion H; subst; destruct Hq].
+  inversion H; subst. simpl in Hq. destruct Hq as [<-|[]]. simpl. split; [reflexivity|].
+  apply request_on_facts in Eq. destruct Eq as [_ [_ [_ [_ [Eg _]]]]]. rewrite Eg. exists a0. exact Ha0.
+Qed.
+
+(* ---- the broker table only grows: nodes a response does not name keep their address ---------------- *)
+Lemma merge_brokers_frame : forall st nr full st' gone ok n,
+  NoDup (map fst (n_brokers nr)) -> merge st nr full = (st', gone, ok) -> ~ In n (map fst (n_brokers nr)) ->
+  zget n (s_brokers st') = zget n (s_brokers st).
+Proof.
+  intros st nr full st' gone ok n Nb Hm Hn. rewrite merge_eq in Hm. inversion Hm; subst; clear Hm.
+  set (rm := full && negb (is_nil (n_brokers nr))).
+  destruct (merge_topics_fields (n_brokers nr) (n_topics nr) (fst (update_brokers st (n_brokers nr) rm))) as [Eb _].
+  rewrite Eb. destruct (update_brokers_fields st (n_brokers nr) rm) as [Eb2 _]. rewrite Eb2.
+  rewrite (by_id_of_nodup _ Nb), zget_dupdate by exact Nb.
+  replace (zget n (n_brokers nr)) with (@None addr); [reflexivity|].
+  symmetry. apply (dget_none_notin Z.eqb Z.eqb_eq). exact Hn.
 Qed.
